@@ -95,6 +95,7 @@ type Sim struct {
 	hosts     map[string]*hostState
 	conns     []*Conn
 	dialSeq   map[string]uint64
+	dials     []DialRec
 	netCfg    NetCfg
 
 	// counters (faults that actually fired, rare-branch probes)
